@@ -27,6 +27,8 @@ func init() {
 		Assumptions: []string{"text/template semantics; the template model mirrors cmd/protoc-gen-router/main.go newServiceModel and cmd/protoc-gen-wrapper/main.go", "grpc ClientStream/ServerStream contracts"},
 		Run:         runC12,
 		Controls: []Control{
+			{Name: "only-client-streams-wrapped", File: "pkg/middleware/name/defaults.go", Old: "\t\treturn handler(srv, &absentNameReplaceServerStream{", New: "\t\tif !info.IsClientStream {\n\t\t\treturn handler(srv, ss)\n\t\t}\n\t\treturn handler(srv, &absentNameReplaceServerStream{", Expect: "R12.5"},
+			{Name: "generator-rehomes-output-type", File: "cmd/protoc-gen-router/main.go", Old: "\t\t\tGoOutput: ident(g, method.Output.GoIdent),", New: "\t\t\tGoOutput: ident(g, protogen.GoIdent{GoName: method.Output.GoIdent.GoName, GoImportPath: file.GoImportPath}),", Expect: "R12.7"},
 			{Name: "generator-skips-empty-services", File: "cmd/protoc-gen-router/main.go", Old: "\tfor _, service := range file.Services {\n", New: "\tfor _, service := range file.Services {\n\t\tif len(service.Methods) == 0 {\n\t\t\tcontinue\n\t\t}\n", Expect: "R12.6"},
 			{Name: "get-returns-fallback-error-with-factory-client", File: "pkg/router/router.go", Old: "\t\tchild, exists, err = invoke(name, r.factory)\n", New: "\t\tchild, exists, _ = invoke(name, r.factory)\n", Expect: "R12.4"},
 			{Name: "add-skips-unchanged-client", File: "pkg/router/router.go", Old: "\tr.registry[name] = client\n\tr.mu.Unlock()\n", New: "\tr.registry[name] = client\n\tr.mu.Unlock()\n\n\tif old == client {\n\t\treturn old\n\t}\n", Expect: "R12.4"},
@@ -286,11 +288,14 @@ func runC12(c *an.Ctx) {
 	r125(c)
 	r126(c)
 	c.Min("R12.6", 2)
+	r125stream(c)
+	r127(c)
+	c.Min("R12.7", 2)
 	c.Min("R12.1", 130)
 	c.Min("R12.2", 130)
 	c.Min("R12.3", 150)
 	c.Min("R12.4", 10)
-	c.Min("R12.5", 2)
+	c.Min("R12.5", 3)
 }
 
 // srcOf returns the (possibly overlaid) source of a parsed module file.
@@ -1268,6 +1273,127 @@ func r126(c *an.Ctx) {
 		}
 		if n == 0 {
 			c.Unk(rule, name+"|every service is rendered", fn.Pos(), "no loop over file.Services found")
+		}
+	}
+}
+
+// r125stream: the default-name stream interceptor hands the handler its replacing stream on EVERY call: server-streaming
+// methods (every Pull*) read their single request through RecvMsg of that stream too, so a wrapper that is installed
+// only for client streams leaves the empty names of Pull requests empty and the router answers NotFound.
+func r125stream(c *an.Ctx) {
+	const rule = "R12.5"
+	fn := mustFunc(c, rule, "pkg/middleware/name", "", "IfAbsentStreamInterceptor")
+	if fn == nil {
+		return
+	}
+	name := "pkg/middleware/name.IfAbsentStreamInterceptor"
+	n := 0
+	bodies := append(an.AnonFuncsDeep(fn), an.TransparentCalleesOf(fn, 2)...)
+	// the interceptor may be a method value of a small type (`nameDefault(name).stream`): the function that is returned
+	for _, r := range an.Returns(fn) {
+		for _, s0 := range an.Sources(r.Results[0]) {
+			if b, _, _ := an.CallbackBody(s0); b != nil && len(b.Blocks) > 0 {
+				bodies = append(bodies, b)
+			}
+		}
+	}
+	seenBody := map[*ssa.Function]bool{}
+	for _, f := range bodies {
+		np := len(f.Params)
+		if np < 4 || seenBody[f] {
+			continue
+		}
+		seenBody[f] = true
+		handler := f.Params[np-1]
+		ss := f.Params[np-3]
+		if !strings.Contains(handler.Type().String(), "StreamHandler") {
+			continue
+		}
+		an.Instrs(f, func(in ssa.Instruction) {
+			call, ok := in.(*ssa.Call)
+			if !ok || call.Call.Value != ssa.Value(handler) || len(call.Call.Args) != 2 {
+				return
+			}
+			n++
+			// the stream handed on is never the raw one
+			raw := false
+			for _, s0 := range an.Sources(call.Call.Args[1]) {
+				if s0 == ssa.Value(ss) {
+					raw = true
+				}
+			}
+			c.SawFunc(an.FuncName(fn))
+			c.Check(!raw, rule, name+"|every stream gets the name-filling wrapper", call.Pos(), "the handler always receives the wrapping stream",
+				"on some path the handler is given the original ServerStream instead of the wrapper that fills in empty names: for those calls (e.g. all server-streaming Pull* methods when only client streams are wrapped) an empty name stays empty and the router answers NotFound instead of forwarding to the default client")
+		})
+	}
+	if n == 0 {
+		c.Unk(rule, name+"|every stream gets the name-filling wrapper", fn.Pos(), "the call of the stream handler was not found")
+	}
+}
+
+// r127: the generated forwarders name their request and response types as the descriptors do: GoInput / GoOutput of a
+// method come from the method's own Input.GoIdent / Output.GoIdent - a type from another proto package
+// (types.AudioLevel, emptypb.Empty) must not be re-homed into the package of the file being generated.
+func r127(c *an.Ctx) {
+	const rule = "R12.7"
+	for _, rel := range []string{"cmd/protoc-gen-router", "cmd/protoc-gen-wrapper"} {
+		fn := c.Prog.Func(rel, "", "newServiceModel")
+		if fn == nil {
+			continue
+		}
+		c.SawFunc(an.FuncName(fn))
+		for _, fld := range []string{"GoInput", "GoOutput"} {
+			want := map[string]string{"GoInput": "Input", "GoOutput": "Output"}[fld]
+			n, ok := 0, true
+			var where token.Pos = fn.Pos()
+			an.Instrs(fn, func(in ssa.Instruction) {
+				st, isSt := in.(*ssa.Store)
+				if !isSt {
+					return
+				}
+				if _, _, f, isF := an.FieldOf(st.Addr); !isF || f != fld {
+					return
+				}
+				n++
+				// the value derives from <method>.<want>.GoIdent
+				good := false
+				var walk func(v ssa.Value, depth int)
+				walk = func(v ssa.Value, depth int) {
+					if depth > 6 || good {
+						return
+					}
+					for _, s0 := range an.Sources(v) {
+						if base, _, f, isF := an.FieldOf(s0); isF && f == "GoIdent" {
+							for _, s1 := range an.Sources(base) {
+								if _, _, f2, isF2 := an.FieldOf(s1); isF2 && f2 == want {
+									good = true
+								}
+							}
+							if _, _, f2, isF2 := an.FieldOf(base); isF2 && f2 == want {
+								good = true
+							}
+						}
+						if call, isCall := s0.(*ssa.Call); isCall {
+							for _, a := range call.Call.Args {
+								walk(a, depth+1)
+							}
+						}
+						if ex, isEx := s0.(*ssa.Extract); isEx {
+							walk(ex.Tuple, depth+1)
+						}
+					}
+				}
+				walk(st.Val, 0)
+				if !good {
+					ok, where = false, st.Pos()
+				}
+			})
+			if n == 0 {
+				continue // the wrapper generator has no such field
+			}
+			c.Check(ok, rule, rel+".newServiceModel|"+fld+" names the method's own "+want+" type", where, "",
+				fld+" is not derived from method."+want+".GoIdent: a request/response type that lives in another proto package is named as if it were local, so the checked-in routers of such services (speaker, microphone, memory settings) are no longer what the generator produces - regenerating them does not even compile")
 		}
 	}
 }
